@@ -286,6 +286,10 @@ def run(ctx, rep_):
     return_marking(F, rep_, "C02.return-marking")
     from props import _identity
     _identity.zip_lengths(F, rep_, "C02.zip-length")
+    # the typing guards whose loss makes an accepted program fail with a dynamic type error (shared with C03 (c))
+    from props import _guards
+    _guards.run(F, rep_, ctx, prefix="C02", only={"index-supported", "index-type", "index-output", "map-index-key-type", "binary-operator", "unary-minus",
+                                                  "unary-not", "annotated-initializer", "reassign-same-type", "method-callable", "field-or-method-exists"})
 
     if _builtins is not None:
         _builtins.run(F, rep_, "C02.builtin", None)
